@@ -13,7 +13,8 @@
                                  '\t\\t' = 111     prints  \\\'\\\\t\\\\\\\\t\\\'   (TAB -> \\\\t)
      the 46 `DateTime(\\\'UTC\\\')` lines                                      (delimiting quote -> \\\')
      02499/03xxx array-as-string `[\\\'Hello\\\', \\\'wo\\\\\\\'rld\\\\\\\\\\\']`   (quote inside -> 7 backslashes + ')
-   and Go's own escapeStringLiteral is esc . esc (TypeProof.escape_string_literal_is_esc2).
+   and Go's own escapeStringLiteral is esc . esc (TypeProof.escape_string_literal_is_esc2), its
+   escapeStringForTypeParam is esc . esc . esc (TypeProof.escape_type_param_esc3).
 
    Token spelling: [print_ty] gives the erased token sequence (kind, value) of a type; separators,
    comments and positions do not exist at this level (TypeBase.erase), which is how "any spacing" is stated. *)
@@ -128,6 +129,14 @@ Definition arg_type_ok (t : ty) : bool :=
   | TApp _ _ => true
   end.
 
+(* RESIDUAL restriction on named elements (the only one left after the fixes of F1..F4):
+   an element NAME that isDataTypeName knows (date, time, string, uuid, ...) is recognised as a name only when the
+   element TYPE starts with a name that isDataTypeName also knows.  `Tuple(date Date)`, `Tuple(date Array(Int32))`,
+   `Tuple(d LineString)` are fine; `Tuple(date LineString)` (known name + unknown plain type) is still a parse
+   error in parseDataType and stays outside wf_ty.  Every constructor with arguments is known (ctor_ok), so the
+   excluded trees are exactly: ANamed s (TName s') with is_dtn s = true and is_dtn s' = false. *)
+Definition elem_name_ok (s : list N) (t : ty) : bool := negb (is_dtn s) || is_dtn (head_name t).
+
 Fixpoint wf_ty (t : ty) : bool :=
   match t with
   | TName s => ident_ok s
@@ -138,7 +147,7 @@ Fixpoint wf_ty (t : ty) : bool :=
 with wf_arg (named : bool) (a : arg) : bool :=
   match a with
   | AType t => wf_ty t && arg_type_ok t
-  | ANamed s t => named && ident_ok s && first_name_ok s && wf_ty t      (* element names only in Tuple / Nested *)
+  | ANamed s t => named && ident_ok s && first_name_ok s && elem_name_ok s t && wf_ty t   (* element names only in Tuple / Nested *)
   | ANum n => n <? two64
   | ANeg n => n <? two64
   | AStr _ => true                                                        (* every byte string *)
@@ -151,29 +160,3 @@ Definition glue_words : list (list N) :=
   [w_UNSIGNED; w_SIGNED; w_PRECISION; w_VARYING; w_LARGE; w_CHAR; w_CHARACTER].
 Definition follow_ok (rest : list tok) : bool :=
   negb (tok_is T_LPAREN (cur rest)) && negb (existsb (fun w => word_is w rest) glue_words).
-
-(* ------------------------------------------------------------------------------------------ *)
-(* The restrictions under which TODAY's code meets the specification.  Each conjunct is a reported
-   finding (the C18_refuted lemmas of TypeProof); when the code is fixed the conjunct and the finding go away.
-     F1  AStr : FormatDataType prints a plain string argument with %s, no escaping at all
-     F2  AEnum: escapeStringForTypeParam turns ' into 5 backslashes + ' instead of 7
-     F3  an unnamed Tuple/Nested element whose name isDataTypeName does not know is taken for an element NAME
-         (and silently dropped when no type follows)
-     F4  an element name that isDataTypeName knows is only recognised before an IDENT token that isDataTypeName knows *)
-Definition plain_byte (b : N) : bool :=
-  negb ((b =? 92) || (b =? 39) || (b =? 10) || (b =? 9) || (b =? 13) || (b =? 0) || (b =? 8) || (b =? 12)).
-
-Fixpoint code_ok (t : ty) : bool :=
-  match t with
-  | TName _ => true
-  | TApp s args => forallb (code_ok_arg (uses_named (to_upper s))) args
-  end
-with code_ok_arg (named : bool) (a : arg) : bool :=
-  match a with
-  | AType t => code_ok t && (negb named || is_dtn (head_name t))                                         (* F3 *)
-  | ANamed s t =>
-    code_ok t && (negb (is_dtn s) || ((name_tok (head_name t) =? T_IDENT) && is_dtn (head_name t)))       (* F4 *)
-  | ANum _ | ANeg _ => true
-  | AStr s => forallb plain_byte s                                                                       (* F1 *)
-  | AEnum s _ _ => forallb (fun b => negb (b =? 39)) s                                                   (* F2 *)
-  end.
